@@ -1,5 +1,5 @@
 (* C08 — peer requests return only eligible hosts that already whitelisted the requester. *)
-From VP Require Import Base Nonce Store StoreProofs ReqHosts ReqHostsProofs Agent Compose.
+From VP Require Import Base Nonce Store StoreProofs PeersFrame ReqHosts ReqHostsProofs Agent Compose.
 From VPgen Require Import Facts.
 
 Theorem c08_eligible : forall X now st reg maxh self num kind chosen outs,
@@ -71,3 +71,22 @@ Theorem c08_round_connects_only_whitelisted :
   (Z.of_nat (length (filter (fun c => match c with CConnect _ => true | _ => false end) calls)) <= Z.max 0 need).
 Proof. exact round_connects_only_whitelisted. Qed.
 Print Assumptions c08_round_connects_only_whitelisted.
+
+(* "not already its peer" is about the peers recorded at the requester's last keep-alive: the
+   list a peer request skips (what NodePeers answers) is the same list until the requester's next
+   keep-alive, however old its entries have grown and whoever has checked in since *)
+Theorem c08_skip_list_is_last_keepalives : forall X E i ops st now,
+  forallb (fun no => negb (writes_peers_of i (snd no))) ops = true ->
+  registered (srun X E st ops) i = true ->
+  snd (sstep X E now (srun X E st ops) (NodePeers i)) = RNodes (nodes_of (srun X E st ops) (tracked st i)).
+Proof.
+  intros X E i ops st now H Hr. rewrite node_peers_lists_tracked by exact Hr.
+  now rewrite (tracked_frame_run X E i ops st H).
+Qed.
+Print Assumptions c08_skip_list_is_last_keepalives.
+Example c08_aged_entry_still_skipped :
+  let nd k h := {| n_id := k; n_uri := 0; n_seen := 0; n_kind := 1; n_host := h; n_payout := 0; n_block := 0 |} in
+  let ops := [(0, SetNode (nd 1%N true)); (0, SetNode (nd 2%N false)); (100, UpdatePeers 2 [1%N] 0);
+              (101, UpdatePeers 1 [] 0); (101, Advance 130)] in
+  tracked (srun 120 900 s0 ops) 2 = [1%N].
+Proof. exact aged_entry_still_listed. Qed.
